@@ -3,10 +3,13 @@
 import json, os, glob
 V = os.path.dirname(os.path.dirname(os.path.abspath(__file__)))
 props = [json.loads(l)['id'] for l in open(os.path.join(V, 'properties.jsonl'))]
+enabled_file = os.path.join(V, 'manifest.d', 'ENABLED')
+enabled = set(open(enabled_file).read().split()) if os.path.exists(enabled_file) else None
 checks = []
 for f in sorted(glob.glob(os.path.join(V, 'manifest.d', 'C*.json'))):
     c = json.load(open(f))
     pid = c['property_id']
+    if enabled is not None and pid not in enabled: continue
     c.setdefault('quick_cmd', 'bin/check %s --tier quick' % pid)
     c.setdefault('thorough_cmd', 'bin/check %s --tier thorough' % pid)
     c.setdefault('evidence_file', '/verif/evidence/%s.json' % pid)
